@@ -32,28 +32,53 @@ Proof.
   repeat split; try assumption. rewrite Z.geb_leb in E2. apply Z.leb_gt in E2. exact E2.
 Qed.
 
-(* _raw_pkcs1_verify: accepts exactly when the public operation yields the canonical encoding *)
+(* _raw_pkcs1_verify: accepts exactly when the padding string has room for 8 bytes and the
+   public operation yields the canonical encoding *)
 Lemma raw_pkcs1_verify_iff n e sig data :
   raw_pkcs1_verify n e sig data = true <->
+  zlen data + 11 <= numBytes n /\
   raw_public_key_op_bytes n e sig = Ok (canonical_em (numBytes n) data).
 Proof.
   unfold raw_pkcs1_verify. rewrite padding_is_canonical.
   destruct (raw_public_key_op_bytes n e sig) as [c|x].
-  - rewrite list_eqb_spec. split; [intros ->; reflexivity|intros H; injection H; auto].
-  - split; discriminate.
+  - destruct (numBytes n <? zlen data + 11) eqn:E.
+    + apply Z.ltb_lt in E. split; [discriminate|intros [H _]; lia].
+    + apply Z.ltb_ge in E. rewrite list_eqb_spec.
+      split; [intros ->; auto|intros [_ H]; injection H; auto].
+  - split; [discriminate|intros [_ H]; discriminate].
+Qed.
+
+(* the encoding of T for a k-byte modulus, when RFC 8017 9.2 allows one (|PS| >= 8) *)
+Definition enc (k : Z) (T : list Z) : list (list Z) :=
+  if k <? zlen T + 11 then [] else [canonical_em k T].
+
+Lemma in_enc k T c : In c (enc k T) <-> zlen T + 11 <= k /\ c = canonical_em k T.
+Proof.
+  unfold enc. destruct (k <? zlen T + 11) eqn:E.
+  - apply Z.ltb_lt in E. cbn [In]. split; [tauto|intros [H _]; lia].
+  - apply Z.ltb_ge in E. cbn [In]. split; [intros [<-|[]]; auto|intros [_ ->]; auto].
+Qed.
+
+Lemma raw_verify_enc n e sig T :
+  raw_pkcs1_verify n e sig T = true <->
+  exists c, raw_public_key_op_bytes n e sig = Ok c /\ In c (enc (numBytes n) T).
+Proof.
+  rewrite raw_pkcs1_verify_iff. split.
+  - intros [H1 H2]. eexists. split; [exact H2|]. apply in_enc. auto.
+  - intros [c [Hc Hin]]. apply in_enc in Hin. destruct Hin as [H1 ->]. auto.
 Qed.
 
 (* the encodings verify() compares against, per hash name (None: TLS <= 1.1 raw MD5||SHA1) *)
 Definition accepted_encodings (k : Z) (hashAlg : option string) (data : list Z) : list (list Z) :=
   match hashAlg with
-  | None => [canonical_em k data]
+  | None => enc k data
   | Some h =>
       match lookup_prefix pkcs1_prefixes h with
       | None => []
       | Some p =>
           if String.eqb h "sha1"
-          then [canonical_em k (sha1_prefix_no_null ++ data); canonical_em k (p ++ data)]
-          else [canonical_em k (p ++ data)]
+          then enc k (sha1_prefix_no_null ++ data) ++ enc k (p ++ data)
+          else enc k (p ++ data)
       end
   end.
 
@@ -74,18 +99,19 @@ Section V.
       + apply String.eqb_eq in Eh. subst h. unfold addPKCS1SHA1Prefix.
         destruct (lookup_prefix pkcs1_prefixes "sha1") as [p|] eqn:Ep; [|exfalso; apply sha1_in_table; exact Ep].
         cbn [bind]. split.
-        * intros H. injection H as H. apply orb_true_iff in H. destruct H as [H|H]; apply raw_pkcs1_verify_iff in H;
-            eexists; (split; [exact H|]); cbn [In]; auto.
-        * intros [c [Hc Hin]]. f_equal. apply orb_true_iff. cbn [In] in Hin.
-          destruct Hin as [<-|[<-|[]]]; [left|right]; apply raw_pkcs1_verify_iff; exact Hc.
+        * intros H. injection H as H. apply orb_true_iff in H.
+          destruct H as [H|H]; apply raw_verify_enc in H; destruct H as [c [Hc Hin]];
+            exists c; (split; [exact Hc|]); apply in_or_app; auto.
+        * intros [c [Hc Hin]]. f_equal. apply orb_true_iff. apply in_app_or in Hin.
+          destruct Hin as [Hin|Hin]; [left|right]; apply raw_verify_enc; eauto.
       + unfold addPKCS1Prefix. destruct (lookup_prefix pkcs1_prefixes h) as [p|].
         * cbn [bind]. split.
-          -- intros H. injection H as H. apply raw_pkcs1_verify_iff in H. eexists. split; [exact H|]. cbn [In]. auto.
-          -- intros [c [Hc [<-|[]]]]. f_equal. apply raw_pkcs1_verify_iff. exact Hc.
+          -- intros H. injection H as H. apply raw_verify_enc in H. exact H.
+          -- intros H. f_equal. apply raw_verify_enc. exact H.
         * cbn [bind]. split; [discriminate|]. intros [c [_ []]].
     - split.
-      + intros H. injection H as H. apply raw_pkcs1_verify_iff in H. eexists. split; [exact H|]. cbn [In]. auto.
-      + intros [c [Hc [<-|[]]]]. f_equal. apply raw_pkcs1_verify_iff. exact Hc.
+      + intros H. injection H as H. apply raw_verify_enc in H. exact H.
+      + intros H. f_equal. apply raw_verify_enc. exact H.
   Qed.
 
   (* a PKCS#1 signature is never accepted for an rsa-pss key *)
@@ -138,6 +164,13 @@ Proof.
 Qed.
 
 (* ---- signing ------------------------------------------------------------------ *)
+(* the block sign() encodes: DigestInfo prefix || data, or the bare data for hashAlg = None *)
+Definition signed_block (hashAlg : option string) (data : list Z) : option (list Z) :=
+  match hashAlg with
+  | None => Some data
+  | Some h => match lookup_prefix pkcs1_prefixes h with Some p => Some (p ++ data) | None => None end
+  end.
+
 Section Sign.
   Variables n e : Z.
   Variable priv : Z -> Z.
@@ -163,11 +196,13 @@ Section Sign.
   Qed.
 
   Lemma raw_sign_verifies T :
-    all_bytes T = true -> zlen T + 3 <= numBytes n ->
+    all_bytes T = true -> zlen T + 11 <= numBytes n ->
     exists sig, raw_pkcs1_sign n priv T = Ok sig /\ raw_pkcs1_verify n e sig T = true /\ zlen sig = numBytes n.
   Proof.
-    intros HT Hlen. pose proof (numBytes_pos n Hn) as Hk.
-    unfold raw_pkcs1_sign, raw_private_key_op_bytes. rewrite padding_is_canonical.
+    intros HT Hlen11. assert (Hlen : zlen T + 3 <= numBytes n) by lia. pose proof (numBytes_pos n Hn) as Hk.
+    unfold raw_pkcs1_sign.
+    destruct (numBytes n <? zlen T + 11) eqn:EG; [apply Z.ltb_lt in EG; lia|].
+    unfold raw_private_key_op_bytes. rewrite padding_is_canonical.
     rewrite canonical_em_zlen. replace (Z.max (zlen T + 3) (numBytes n)) with (numBytes n) by lia.
     rewrite Z.eqb_refl. cbn [negb].
     pose proof (canonical_em_lt_n T HT Hlen) as Hlt.
@@ -178,7 +213,7 @@ Section Sign.
     eexists. split; [reflexivity|].
     destruct (Hpriv (bytesToNumber (canonical_em (numBytes n) T)) (conj H0 Hlt)) as [[P0 P1] P2].
     split; [|apply n2b_zlen; lia].
-    apply raw_pkcs1_verify_iff. unfold raw_public_key_op_bytes.
+    apply raw_pkcs1_verify_iff. split; [exact Hlen11|]. unfold raw_public_key_op_bytes.
     rewrite n2b_zlen by lia. rewrite Z.eqb_refl. cbn [negb].
     pose proof (numBytes_upper n Hn) as Hu.
     rewrite b2n_n2b by lia.
@@ -188,46 +223,54 @@ Section Sign.
     rewrite canonical_em_zlen. lia.
   Qed.
 
-  (* the DigestInfo does not fit the modulus: signing raises, nothing is emitted *)
-  Lemma raw_sign_too_long T : numBytes n < zlen T + 3 -> raw_pkcs1_sign n priv T = Err ValueError.
+  (* RFC 8017 9.2 step 3: fewer than 8 bytes of padding would be needed: signing raises *)
+  Lemma raw_sign_too_long T : numBytes n < zlen T + 11 -> raw_pkcs1_sign n priv T = Err ValueError.
   Proof.
-    intros H. unfold raw_pkcs1_sign, raw_private_key_op_bytes. rewrite padding_is_canonical, canonical_em_zlen.
-    destruct (Z.max (zlen T + 3) (numBytes n) =? numBytes n) eqn:E; [apply Z.eqb_eq in E; lia|]. reflexivity.
+    intros H. unfold raw_pkcs1_sign.
+    destruct (numBytes n <? zlen T + 11) eqn:E; [reflexivity|apply Z.ltb_ge in E; lia].
   Qed.
 
   Variable hash : list Z -> list Z.
   Variable hLen : Z.
 
-  Theorem pkcs1_sign_verifies_gen data hashAlg salt sLen :
-    all_bytes data = true ->
-    (forall T, In (canonical_em (numBytes n) T) (accepted_encodings (numBytes n) hashAlg data) ->
-               zlen T + 3 <= numBytes n) ->
-    accepted_encodings (numBytes n) hashAlg data <> [] ->
+  Theorem pkcs1_sign_verifies_gen data hashAlg salt sLen T :
+    all_bytes data = true -> signed_block hashAlg data = Some T -> zlen T + 11 <= numBytes n ->
     exists sig, rsa_sign hash hLen n priv data PadPkcs1 hashAlg salt = Ok sig /\
                 rsa_verify hash hLen false n e sig data PadPkcs1 hashAlg sLen = Ok true.
   Proof.
-    intros Hd Hfit Hne. unfold rsa_sign.
+    intros Hd HT HL. unfold rsa_sign. unfold signed_block in HT.
     destruct hashAlg as [h|].
-    - unfold accepted_encodings in *. unfold addPKCS1Prefix.
-      destruct (lookup_prefix pkcs1_prefixes h) as [p|] eqn:Ep; [|contradiction].
-      cbn [bind].
+    - unfold addPKCS1Prefix.
+      destruct (lookup_prefix pkcs1_prefixes h) as [p|] eqn:Ep; [|discriminate].
+      injection HT as <-. cbn [bind].
       assert (Hp : all_bytes p = true).
       { clear - Ep. revert Ep. unfold pkcs1_prefixes. cbn [lookup_prefix].
         repeat (destruct (String.eqb _ h); [intros E; injection E as <-; reflexivity|]). discriminate. }
-      assert (HT : all_bytes (p ++ data) = true) by (rewrite all_bytes_app, Hp, Hd; reflexivity).
-      assert (HL : zlen (p ++ data) + 3 <= numBytes n).
-      { apply Hfit. destruct (String.eqb h "sha1"); cbn [In]; auto. }
-      destruct (raw_sign_verifies (p ++ data) HT HL) as [sig [Hs [Hv _]]].
+      assert (HTb : all_bytes (p ++ data) = true) by (rewrite all_bytes_app, Hp, Hd; reflexivity).
+      destruct (raw_sign_verifies (p ++ data) HTb HL) as [sig [Hs [Hv _]]].
       exists sig. split; [exact Hs|].
-      apply (pkcs1_verify_iff hash hLen). apply raw_pkcs1_verify_iff in Hv.
-      eexists. split; [exact Hv|]. unfold accepted_encodings. rewrite Ep.
-      destruct (String.eqb h "sha1"); cbn [In]; auto.
-    - cbn [bind].
-      assert (HL : zlen data + 3 <= numBytes n) by (apply Hfit; cbn; auto).
+      apply (pkcs1_verify_iff hash hLen). apply raw_verify_enc in Hv. destruct Hv as [c [Hc Hin]].
+      exists c. split; [exact Hc|]. unfold accepted_encodings. rewrite Ep.
+      destruct (String.eqb h "sha1"); [apply in_or_app; right|]; exact Hin.
+    - injection HT as <-. cbn [bind].
       destruct (raw_sign_verifies data Hd HL) as [sig [Hs [Hv _]]].
       exists sig. split; [exact Hs|].
-      apply (pkcs1_verify_iff hash hLen). apply raw_pkcs1_verify_iff in Hv.
-      eexists. split; [exact Hv|]. cbn. auto.
+      apply (pkcs1_verify_iff hash hLen). apply raw_verify_enc in Hv. exact Hv.
+  Qed.
+
+  (* and sign() never emits a block with a shorter padding string *)
+  Lemma rsa_sign_ok_implies_room data hashAlg salt sig :
+    rsa_sign hash hLen n priv data PadPkcs1 hashAlg salt = Ok sig ->
+    exists T, signed_block hashAlg data = Some T /\ zlen T + 11 <= numBytes n.
+  Proof.
+    unfold rsa_sign, signed_block. destruct hashAlg as [h|].
+    - unfold addPKCS1Prefix. destruct (lookup_prefix pkcs1_prefixes h) as [p|]; cbn [bind]; [|discriminate].
+      intros H. exists (p ++ data). split; [reflexivity|].
+      destruct (Z_lt_le_dec (numBytes n) (zlen (p ++ data) + 11)) as [L|L]; [|exact L].
+      rewrite (raw_sign_too_long _ L) in H. discriminate.
+    - cbn [bind]. intros H. exists data. split; [reflexivity|].
+      destruct (Z_lt_le_dec (numBytes n) (zlen data + 11)) as [L|L]; [|exact L].
+      rewrite (raw_sign_too_long _ L) in H. discriminate.
   Qed.
 End Sign.
 
@@ -240,7 +283,7 @@ Lemma pkcs1_accepted_block_shape hash hLen n e sig data h p sLen j X :
 Proof.
   intros Hh Hp Hv Hpub. apply pkcs1_verify_iff in Hv. destruct Hv as [c [Hc Hin]].
   rewrite Hpub in Hc. injection Hc as <-. unfold accepted_encodings in Hin. rewrite Hp, Hh in Hin.
-  destruct Hin as [Hin|[]]. symmetry in Hin. apply em_parse_unique in Hin. destruct Hin as [-> ->]. auto.
+  apply in_enc in Hin. destruct Hin as [_ Hin]. apply em_parse_unique in Hin. destruct Hin as [-> ->]. auto.
 Qed.
 
 (* any other block is rejected (wrong prefix, wrong hash, short or long padding, trailing bytes,
@@ -313,11 +356,8 @@ Section CrtSign.
     apply (rsa_priv_then_pub k Hshape Hed). exact Hx.
   Qed.
 
-  Theorem pkcs1_sign_verifies_crt hash hLen data hashAlg salt sLen :
-    all_bytes data = true ->
-    (forall T, In (canonical_em (numBytes (rk_n k)) T) (accepted_encodings (numBytes (rk_n k)) hashAlg data) ->
-               zlen T + 3 <= numBytes (rk_n k)) ->
-    accepted_encodings (numBytes (rk_n k)) hashAlg data <> [] ->
+  Theorem pkcs1_sign_verifies_crt hash hLen data hashAlg salt sLen T :
+    all_bytes data = true -> signed_block hashAlg data = Some T -> zlen T + 11 <= numBytes (rk_n k) ->
     exists sig, rsa_sign hash hLen (rk_n k) crt_priv data PadPkcs1 hashAlg salt = Ok sig /\
                 rsa_verify hash hLen false (rk_n k) (rk_e k) sig data PadPkcs1 hashAlg sLen = Ok true.
   Proof.
@@ -326,7 +366,37 @@ Section CrtSign.
   Qed.
 End CrtSign.
 
-(* ---- deviation from RFC 8017: padding shorter than 8 bytes is produced and accepted ---- *)
+(* ---- the padding string always has at least 8 bytes (RFC 8017 9.2) ----------------
+   Before /repo 693c302 this was FALSE (theorem pkcs1_min_padding_refuted: with the 304-bit key
+   below and an MD5 DigestInfo, sign() emitted and verify() accepted a block with ONE byte of
+   padding).  Now every accepted block is an RFC 8017 encoding and sign() refuses otherwise. *)
+Lemma accepted_is_rfc8017 k hashAlg data c :
+  In c (accepted_encodings k hashAlg data) -> exists T, rfc8017_em k T = Some c.
+Proof.
+  assert (E : forall T, In c (enc k T) -> exists T, rfc8017_em k T = Some c).
+  { intros T H. apply in_enc in H. destruct H as [H ->]. exists T. unfold rfc8017_em.
+    destruct (k <? zlen T + 11) eqn:E; [apply Z.ltb_lt in E; lia|reflexivity]. }
+  unfold accepted_encodings. destruct hashAlg as [h|]; [|apply E].
+  destruct (lookup_prefix pkcs1_prefixes h) as [p|]; [|intros []].
+  destruct (String.eqb h "sha1"); [|apply E].
+  intros H. apply in_app_or in H. destruct H as [H|H]; eapply E; exact H.
+Qed.
+
+Lemma pkcs1_min_padding_holds :
+  forall (hash : list Z -> list Z) hLen n e (priv : Z -> Z) sig data hashAlg sLen salt,
+    (rsa_verify hash hLen false n e sig data PadPkcs1 hashAlg sLen = Ok true ->
+     exists c T, raw_public_key_op_bytes n e sig = Ok c /\ rfc8017_em (numBytes n) T = Some c) /\
+    (rsa_sign hash hLen n priv data PadPkcs1 hashAlg salt = Ok sig ->
+     exists T, signed_block hashAlg data = Some T /\ zlen T + 11 <= numBytes n) /\
+    (forall T, numBytes n < zlen T + 11 -> raw_pkcs1_sign n priv T = Err ValueError).
+Proof.
+  intros. split; [|split].
+  - intros H. apply pkcs1_verify_iff in H. destruct H as [c [Hc Hin]].
+    destruct (accepted_is_rfc8017 _ _ _ _ Hin) as [T HT]. eauto.
+  - apply rsa_sign_ok_implies_room.
+  - intros T. apply raw_sign_too_long.
+Qed.
+
 Definition small_key : rsa_priv :=
   {| rk_n := 25638404324901246760496983147100340690291781477598438344356687246102644127504076286653413581;
      rk_e := 65537;
@@ -339,17 +409,10 @@ Definition small_key : rsa_priv :=
 Definition small_digest : list Z := [1; 2; 3; 4; 5; 6; 7; 8; 9; 10; 11; 12; 13; 14; 15; 16].
 Definition plain_priv (k : rsa_priv) (m : Z) : Z := powmod m (rk_d k) (rk_n k).
 
-(* a 304-bit modulus (38 bytes) and an MD5 DigestInfo (34 bytes): PS has ONE byte; RFC 8017 9.2
-   step 3 refuses to encode (emLen < tLen + 11), the code signs and verifies *)
-Lemma pkcs1_short_padding_witness :
-  let n := rk_n small_key in
-  rfc8017_em (numBytes n) ([48; 32; 48; 12; 6; 8; 42; 134; 72; 134; 247; 13; 2; 5; 5; 0; 4; 16] ++ small_digest) = None /\
-  exists sig, rsa_sign (fun x => x) 0 n (plain_priv small_key) small_digest PadPkcs1 (Some "md5"%string) [] = Ok sig /\
-              rsa_verify (fun x => x) 0 false n (rk_e small_key) sig small_digest PadPkcs1 (Some "md5"%string) 0 = Ok true.
-Proof.
-  cbv zeta. split; [vm_compute; reflexivity|].
-  eexists. split; [vm_compute; reflexivity|vm_compute; reflexivity].
-Qed.
+(* the former witness: 304-bit modulus (38 bytes), MD5 DigestInfo (34 bytes): now refused *)
+Lemma small_key_now_refused :
+  rsa_sign (fun x => x) 0 (rk_n small_key) (plain_priv small_key) small_digest PadPkcs1 (Some "md5"%string) [] = Err ValueError.
+Proof. vm_compute. reflexivity. Qed.
 
 Lemma pkcs1_rejects_all :
   forall (hash : list Z -> list Z) hLen n e sig data hashAlg sLen,
